@@ -103,10 +103,9 @@ impl BigUint {
 					return Err(error()?);
 				}
 			}
-			Large(v) => {
-				// todo use correct method to get actual length excluding leading zeroes
-				if v.len() == 1 {
-					if let Ok(res) = usize::try_from(v[0]) {
+			Large(_) => {
+				if self.significant_len() == 1 {
+					if let Ok(res) = usize::try_from(self.get(0)) {
 						res
 					} else {
 						return Err(error()?);
@@ -193,6 +192,17 @@ impl BigUint {
 		}
 	}
 
+	/// number of limbs excluding leading (most significant) zero limbs, at least 1
+	fn significant_len(&self) -> usize {
+		match self {
+			Small(_) => 1,
+			Large(value) => value
+				.iter()
+				.rposition(|limb| *limb != 0)
+				.map_or(1, |idx| idx + 1),
+		}
+	}
+
 	pub(crate) fn gcd<I: Interrupt>(mut a: Self, mut b: Self, int: &I) -> FResult<Self> {
 		while b >= 1.into() {
 			let r = a.rem(&b, int)?;
@@ -210,7 +220,7 @@ impl BigUint {
 		if b.is_zero() {
 			return Ok(Self::from(1));
 		}
-		if b.value_len() > 1 {
+		if b.significant_len() > 1 {
 			return Err(FendError::ExponentTooLarge);
 		}
 		a.pow_internal(b.get(0), int)
@@ -221,7 +231,7 @@ impl BigUint {
 		if self == 0.into() || self == 1.into() || n == &Self::from(1) {
 			return Ok(Exact::new(self, true));
 		}
-		if n.value_len() > 1 {
+		if n.significant_len() > 1 {
 			return Err(FendError::OutOfRange {
 				value: Box::new(n.format(&FormatOptions::default(), int)?.value),
 				range: Range {
